@@ -75,7 +75,7 @@ FLOORS = {
     "quick": _floors("quick", {"record.bin.framing": 1000, "record.bin.readback": 1000, "record.bin.image": 1000, "record.ascii.readback": 1200, "record.big.bin": 6,
                                 "record.big.ascii": 2, "fixture.rewrite": 20, "fixture.bin.roundtrip": 20,
                                 "fixture.ascii.roundtrip": 20, "gen.container": 400, "gen.image-reproduced": 380, "gen.bin.roundtrip": 400, "gen.ascii.roundtrip": 400, "census": 350}),
-    "thorough": _floors("thorough", {"record.bin.framing": 45000, "record.bin.readback": 45000, "record.bin.image": 25000, "record.ascii.readback": 35000, "record.big.bin": 27,
+    "thorough": _floors("thorough", {"record.bin.framing": 30000, "record.bin.readback": 30000, "record.bin.image": 25000, "record.ascii.readback": 35000, "record.big.bin": 27,
                                       "record.big.ascii": 9, "fixture.rewrite": 20, "fixture.bin.roundtrip": 20,
                                       "fixture.ascii.roundtrip": 20, "gen.container": 16000, "gen.image-reproduced": 15000, "gen.bin.roundtrip": 16000, "gen.ascii.roundtrip": 16000, "census": 13000}),
 }
